@@ -894,6 +894,19 @@ func infoOf(fn *ssa.Function) *fnInfo {
 var customInits = map[string]func(i *interpreter, pkg *ssa.Package){}
 
 func init() {
+	// package time is never initialised (it reads the environment), but time.Unix hands out time.Local and the
+	// code under test may compare Time values with ==, which compares the location pointer as well: Local and
+	// UTC point at their (zero) Location structs, as in the real package
+	customInits["time"] = func(i *interpreter, pkg *ssa.Package) {
+		for name, target := range map[string]string{"Local": "localLoc", "UTC": "utcLoc"} {
+			g, ok1 := pkg.Members[name].(*ssa.Global)
+			t, ok2 := pkg.Members[target].(*ssa.Global)
+			if ok1 && ok2 {
+				cell := i.global(g)
+				*cell = i.global(t)
+			}
+		}
+	}
 	customInits["github.com/ethereum/go-ethereum/common"] = func(i *interpreter, pkg *ssa.Package) {
 		bigPkg := i.prog.ImportedPackage("math/big")
 		if bigPkg == nil {
